@@ -313,14 +313,36 @@ def channel_is_line(ch):
     return ch[1] in LINE_FAMILIES and ch[3] not in ("url", "urls", "graph")
 
 
-def doc_for(fmt, ts):
-    if fmt == "nt":
-        return pipe.nt_doc(ts)
+# documents with comment lines (finding C06-F9, root cause rc_comment_line): the text formats that have '#' comments get
+# a comment line, a COMMENTED-OUT STATEMENT about an instance of the graph, and a blank line.  They state the same
+# graph: every channel must give the evidence of the (undecorated) raw N-Triples reference.
+_COMMENTS = [False]
+COMMENTED_P = "http://ex.org/commentedOut"
+COMMENTED_O = "http://ex.org/CommentedOut"
+
+
+def commented_out(fmt, ts):
+    """the lines put in front of a document of `ts`"""
+    subj = next((s for s, p, o in ts if p == TAU and s[0] == "I"), None) or ("I", "http://ex.org/nobody")
+    st = (subj, COMMENTED_P, ("I", COMMENTED_O))
     if fmt == "tsv_spo":
-        return tsv_doc(ts)
+        line = "# " + tsv_doc([st])
+    elif fmt == "nt":
+        line = "# " + pipe.nt_doc([st])
+    else:
+        line = "# %s <%s> <%s> .\n" % (pipe.nt_term(subj), COMMENTED_P, COMMENTED_O)
+    return "# a comment line\n" + line + "\n"
+
+
+def doc_for(fmt, ts):
+    head = commented_out(fmt, ts) if (_COMMENTS[0] and fmt in ("nt", "tsv_spo", "turtle_iter", "turtle", "n3")) else ""
+    if fmt == "nt":
+        return head + pipe.nt_doc(ts)
+    if fmt == "tsv_spo":
+        return head + tsv_doc(ts)
     if fmt == "turtle_iter":
-        return ttl_doc(ts)
-    return rdflib_text(ts, fmt)
+        return head + ttl_doc(ts)
+    return head + rdflib_text(ts, fmt)
 
 
 def build_channel(ch, ts, r, d):
@@ -866,6 +888,11 @@ def check_tsv_reader(tier, rnd):
         k = rnd.choice([3, 3, 3, 1, 2, 4])
         toks = [rnd.choice(TSV_TOKENS) for _ in range(k)]
         lines.append(rnd.choice(["", " ", "\t"]) + "\t".join(toks) + rnd.choice(["", "\n", " \n", "\r\n", "\t"]))
+    # blank lines and comment lines (c08_tsv_skips_comment_lines: skipped; otherwise split like any other line)
+    lines += ["", " ", "\t", " \n", "# comment", "#", "  # x", "\t#\ty", "#a\tb\tc", "\t#\t\t", "# \t \t ",
+              "# <http://e/s>\t<http://e/p>\t<http://e/o>", "#<http://e/s>\t<http://e/p>\t\"x\"@en\n",
+              "<http://e/s>\t<http://e/p>\t\"# not a comment\"", "<http://e/s#a>\t<http://e/p>\t<http://e/o>"]
+    lines += [rnd.choice(["#", "# ", " #", "\t# "]) + ln for ln in lines[:40]]
     chunks = [lines[i:i + 400] for i in range(0, len(lines), 400)]
     res = core.pool_map(_tsv_chunk, chunks, chunksize=1)
     bad = [b for _, bs in res for b in bs]
@@ -873,7 +900,8 @@ def check_tsv_reader(tier, rnd):
     docs = []
     good = [ln for ln in lines if _tsv_real(ln)[0] == "ok"][:4000]
     for _ in range(200 if tier == "thorough" else 60):
-        docs.append([rnd.choice(good) for _ in range(rnd.randint(0, 6))])
+        docs.append([rnd.choice(good) if rnd.random() < 0.8 else rnd.choice(["", "  ", "# c", "# " + rnd.choice(good)])
+                     for _ in range(rnd.randint(0, 6))])
     out = mb().call("c08_tsv", docs)
     i = 0
     for doc in docs:
@@ -991,7 +1019,8 @@ def gen_case(seed, i):
             cfg["targets"] = r.sample(cls, r.randint(1, len(cls)))
     if i % 6 == 2:
         cfg["ns"] = [("http://ex.org/", "ex")]
-    return {"ts": ts, "cfg": cfg, "stream": stream, "seed": seed, "i": i}
+    # every 8th graph: the documents of the text formats carry comment lines and a commented-out statement
+    return {"ts": ts, "cfg": cfg, "stream": stream, "seed": seed, "i": i, "comments": i % 8 == 6}
 
 
 def run_case(case):
@@ -1004,6 +1033,7 @@ def run_case(case):
     out = {"i": case["i"], "runs": 0, "spec_fail": [], "known": {}, "corr_fail": [], "assume_fail": [],
            "tie_skipped": 0, "compared": 0, "excluded_bnode": 0, "corr_checked": 0, "run2_checked": 0,
            "monitored": 0, "outcomes": {}, "vm": []}
+    _COMMENTS[0] = bool(case.get("comments"))
     try:
         ref, rec = real_shaper({"raw_graph": pipe.nt_doc(ts)}, cfg)
         out["runs"] += 1
@@ -1046,7 +1076,9 @@ def run_case(case):
                 fails.append("exception class differs: reference %s, channel %s" % (ref[1], res[1]))
             if fails:
                 rc = None
-                if ch[1] == "tsv_spo" and ch[3] == "file-blank" and res[0] == "err" and res[1] == "TypeError":
+                if _COMMENTS[0] and line and ch[1] in ("nt", "tsv_spo") and "rc_comment_line" in _KNOWN_RCS:
+                    rc = "rc_comment_line"      # the commented-out statement was read as a statement
+                elif ch[1] == "tsv_spo" and ch[3] == "file-blank" and res[0] == "err" and res[1] == "TypeError":
                     rc = "rc_tsv_discarded_line_crashes"
                 elif at and not line:
                     rc = "rc_at_in_plain_literal"
@@ -1119,7 +1151,9 @@ def run_case(case):
         import traceback
         out["internal"] = "case %d crashed: %s %s" % (case["i"], type(e).__name__, traceback.format_exc()[-800:])
     finally:
+        _COMMENTS[0] = False
         shutil.rmtree(d, ignore_errors=True)
+    out["comments"] = 1 if case.get("comments") else 0
     return out
 
 
@@ -1144,6 +1178,21 @@ def replay_finding(f):
             if ref[0] != "ok" or res[0] != "ok":
                 return False
             return bool(compare_evidence(evidence(ref, cfg), evidence(res, cfg), set(), cfg))
+        if kind == "channel-evidence-comments":
+            # the channel's document carries comment lines and a commented-out statement; same graph, same evidence
+            ts = pipeprops_tuplify(rp["ts"])
+            cfg = rp["cfg"]
+            ref, _ = real_shaper({"raw_graph": pipe.nt_doc(ts)}, cfg)
+            ch = [c for c in CHANNELS if c[0] == rp["channel"]][0]
+            _COMMENTS[0] = True
+            try:
+                info = build_channel(ch, ts, random.Random(1), d)
+            finally:
+                _COMMENTS[0] = False
+            res, _ = real_shaper(info["kw"], cfg)
+            if ref[0] != "ok":
+                return False
+            return res[0] != "ok" or bool(compare_evidence(evidence(ref, cfg), evidence(res, cfg), set(), cfg))
         if kind == "two-channels":
             path = os.path.join(d, "doc")
             with open(path, "w") as fh:
@@ -1170,8 +1219,9 @@ def replay_finding(f):
         shutil.rmtree(d, ignore_errors=True)
 
 
-def corpus_failures():
-    """regression cases of repaired findings (corpus/C08/*.json): the defect must not reproduce"""
+def corpus_failures(known_ids=()):
+    """regression cases of repaired findings (corpus/C08/*.json): the defect must not reproduce.  A case whose
+    finding is still listed as known waits for the repair (the finding's own reproducer is replayed instead)"""
     d = os.path.join(core.VERIF, "corpus", PID)
     bad, n = [], 0
     if os.path.isdir(d):
@@ -1180,6 +1230,8 @@ def corpus_failures():
                 continue
             with open(os.path.join(d, fn)) as fh:
                 c = json.load(fh)
+            if c.get("id") in known_ids:
+                continue
             n += 1
             try:
                 again = replay_finding(c)
@@ -1235,7 +1287,8 @@ def run(tier, seed, replay=None):
             run_.notes.append("finding %s no longer reproduces on its pinned input" % fid)
 
     # ---- regression cases of the repaired findings, replayed first
-    n_corpus, corpus_bad = (0, []) if replay else corpus_failures()
+    n_corpus, corpus_bad = (0, []) if replay else corpus_failures(
+        set(fid for fid, f in findings.items() if f.get("status") == "known"))
     for c in corpus_bad[:3]:
         run_.violation("C08 fails on the implementation: regression case %s (%s) reproduces again" % (c["file"], c["id"]),
                        {"corpus_case": c, "reproducer": c["reproducer"]})
@@ -1251,7 +1304,7 @@ def run(tier, seed, replay=None):
         if "case" in rp:
             c = rp["case"]
             cases = [{"ts": pipeprops_tuplify(c["ts"]), "cfg": c["cfg"], "stream": c.get("stream", 0), "seed": c["seed"],
-                      "i": c["i"]}]
+                      "i": c["i"], "comments": c.get("comments", False)}]
     else:
         n = 3000 if tier == "thorough" else 150
         cases = [gen_case(rnd.getrandbits(48), i) for i in range(n)]
@@ -1318,7 +1371,8 @@ def run(tier, seed, replay=None):
 
     def case_payload(case, extra):
         d = {"case": {"ts": [[list(s), p, list(o)] for s, p, o in case["ts"]],
-                      "cfg": case["cfg"], "stream": case["stream"], "seed": case["seed"], "i": case["i"]},
+                      "cfg": case["cfg"], "stream": case["stream"], "seed": case["seed"], "i": case["i"],
+                      "comments": bool(case.get("comments"))},
              "document": pipe.nt_doc(case["ts"])}
         d.update(extra)
         return d
@@ -1408,6 +1462,7 @@ def run(tier, seed, replay=None):
                 "distinct_nontrivial = (distinct documents with a class of >= 2 instances and a non-typing triple) x "
                 "channels" % n_channels,
         "comparisons_with_reference": tot["compared"],
+        "graphs_whose_text_documents_carry_comment_lines": sum(1 for r_ in results if r_.get("comments")),
         "rdflib_channel_comparisons_with_a_tie_in_the_graph": tot["tie_skipped"],
         "blank_node_instance_runs_excluded": tot["excluded_bnode"],
         "streams_corresponded_line_channels": tot["corr_checked"],
